@@ -246,7 +246,8 @@ class DataLoggerSpec(Spec):
             "distinct = distinct scheduler log + operation trace")
     expected_probes = ("checked_raw", "checked_json", "checked_quicklogger", "checked_msg_header", "subdivided_files", "empty_sequence",
                        "single_message", "lock_contended", "runs_with_flush", "runs_with_3+_flushes", "writer_busy_seen",
-                       "ql_files_read", "second_recording", "dataset_replaced", "dataset_removed")
+                       "ql_files_read", "second_recording", "dataset_replaced", "dataset_removed", "high_type_ids",
+                       "timecode_headers")
     components = {"real": ["pyrtma.data_logger.data_collection (DataCollection incl. the writer loop)",
                            "pyrtma.data_logger.data_set", "data_formatter and the raw/json/quicklogger formatters",
                            "pyrtma.data_logger.metadata", "pyrtma.utils.quicklogger_reader (QLReader)",
